@@ -167,7 +167,16 @@ func TestC19(t *testing.T) {
 			if st == 101 {
 				tail = fmt.Sprintf("false\n  echo \"CONTINUED-AFTER-FAILED-COMMAND|%s\" >> %s\n  return 0", h, trace)
 			}
-			sb.WriteString(fmt.Sprintf("function %s() {\n  echo \"%s|${BINDING_CONTEXT_CURRENT_INDEX}|${BINDING_CONTEXT_CURRENT_BINDING}|$(context::jq -r '.binding // \"unknown\"')\" >> %s\n  %s\n}\n", h, h, trace, tail))
+			// a quarter of the handlers read their standard input (as `kubectl exec -i`, `ssh` or a plain `read`
+			// would): a handler's stdin is the hook's own, nothing of the framework's
+			stdin := ""
+			switch rng.IntN(8) {
+			case 0:
+				stdin = "cat > /dev/null\n  "
+			case 1:
+				stdin = "read -r _line || true\n  "
+			}
+			sb.WriteString(fmt.Sprintf("function %s() {\n  %secho \"%s|${BINDING_CONTEXT_CURRENT_INDEX}|${BINDING_CONTEXT_CURRENT_BINDING}|$(context::jq -r '.binding // \"unknown\"')\" >> %s\n  %s\n}\n", h, stdin, h, trace, tail))
 		}
 		sb.WriteString("hook::run \"$@\"\n")
 		script := filepath.Join(c.Dir, "hook.sh")
